@@ -29,21 +29,21 @@ def _counts(trace):
     return c
 
 
-def counter_loop(n_limit: int, c0: int, body_len: int = 1, gate: str = "route", exit_node: bool = False, open_: bool = True, entry_at: int = 0, use_with_entrypoint: bool = False, name: str = "loop"):
+def counter_loop(n_limit: int, c0: int, body_len: int = 1, gate: str = "route", exit_node: bool = False, open_: bool = True, entry_at: int = 0, use_with_entrypoint: bool = False, name: str = "loop", exit_name: str = "done"):
     """T1-T4, T8: `while count < N: count = b_{L-1}(...b0(count))`, optional exit node."""
     L = body_len
     names = ["count"] + [f"x{i}" for i in range(1, L)] + ["count"]
     nodes = []
     for i in range(L):
         nodes.append({"k": "fn", "name": f"b{i}", "params": [{"n": names[i]}], "outs": [names[i + 1]], "beh": ["inc", names[i]]})
-    exit_t = "done" if exit_node else "END"
+    exit_t = exit_name if exit_node else "END"
     if gate == "route":
         g = {"k": "route", "name": "gate", "params": [{"n": "count"}], "targets": ["b0", exit_t], "cond": ["lt", "count", n_limit], "then": "b0", "else": exit_t, "open": open_}
     else:
         g = {"k": "ifelse", "name": "gate", "params": [{"n": "count"}], "t": "b0", "f": exit_t, "cond": ["lt", "count", n_limit], "open": open_}
     nodes.append(g)
     if exit_node:
-        nodes.append({"k": "fn", "name": "done", "params": [{"n": "count"}], "outs": ["result"], "beh": ["mark", "count", "done"]})
+        nodes.append({"k": "fn", "name": exit_name, "params": [{"n": "count"}], "outs": ["result"], "beh": ["mark", "count", "done"]})
     spec = {"name": name, "nodes": nodes, "bind": {}}
     # ---- sequential reference ----
     trace = []
@@ -71,7 +71,7 @@ def counter_loop(n_limit: int, c0: int, body_len: int = 1, gate: str = "route", 
             trace.append((f"b{i}", {names[i + 1]: v}))
         c = v
     if exit_node:
-        trace.append(("done", {"result": ("done", c)}))
+        trace.append((exit_name, {"result": ("done", c)}))
     vals = _fold(inputs, trace)
     if entry_at == 0 or True:
         # the provided entry value is a declared output name too (cycle parameter)
@@ -208,7 +208,8 @@ def gen_loop(rng):
     n = rng.randint(0, 7)
     c0 = rng.randint(0, 3)
     if t == "counter":
-        return counter_loop(n, c0, rng.randint(1, 3), rng.choice(["route", "ifelse"]), rng.random() < 0.4, rng.random() < 0.7)
+        # exit node names that merely EXTEND the body node's name (a decision must be matched as a whole name)
+        return counter_loop(n, c0, rng.randint(1, 3), rng.choice(["route", "ifelse"]), rng.random() < 0.5, rng.random() < 0.7, exit_name=rng.choice(["done", "b0_done", "b0x"]))
     if t == "twoacc":
         return two_acc_loop(n, c0)
     if t == "acc":
@@ -220,7 +221,7 @@ def gen_loop(rng):
         # their parameters as wrapper inputs (examined under C08, not here)
         return nested_loop(n, c0, 1, rng.choice(["route", "ifelse"]), rng.randint(1, 3))
     L = rng.randint(2, 3)
-    return counter_loop(n, c0, L, rng.choice(["route", "ifelse"]), rng.random() < 0.4, True, entry_at=rng.randint(1, L - 1), use_with_entrypoint=rng.random() < 0.5)
+    return counter_loop(n, c0, L, rng.choice(["route", "ifelse"]), rng.random() < 0.4, True, entry_at=rng.randint(1, L - 1), use_with_entrypoint=rng.random() < 0.5, exit_name=rng.choice(["done", "b0_done"]))
 
 
 def seeded_wait(n_waiters: int = 1, name: str = "seedw"):
